@@ -39,7 +39,7 @@ def oracle(case, rec, group):
         if rec["exn"] != "AssertionError":
             out.append(dict(op="for", key="stop-exceeds-max", what="secret loop bound above the public maximum with checkstopmax=True did not raise AssertionError (got %s)" % rec["exn"], msg=rec["msg"]))
         return out
-    if terr in ("stop-below-start", "index"):
+    if terr in ("stop-below-start", "index", "overflow"):
         return out         # outside the side conditions of the constructs ('start <= stop'; array index inside the array)
     if terr is not None: return out
     if rec["exn"] is not None:
